@@ -631,7 +631,11 @@ def seq_nth(E, st, zs, j):
     if z3.is_app(zs) and zs.decl().kind() == z3.Z3_OP_SEQ_EXTRACT:
         s0, a, l = zs.arg(0), zs.arg(1), zs.arg(2)
         jz = j if z3.is_expr(j) else z3.IntVal(j)
-        if E.implied(st, z3.And(a >= 0, l >= 0, a + l <= z3.Length(s0), jz >= 0, jz < l)):
+        inb = z3.And(a >= 0, l >= 0, a + l <= z3.Length(s0), jz >= 0, jz < l)
+        # the bridge between the two spellings, as a fact (true of seq.extract): a term built where the bounds were not yet known
+        # and one built where they were must not cost a sequence-theory proof to be identified
+        st.fact(z3.Implies(inb, zs[jz] == s0[z3.simplify(a + jz)]))
+        if E.implied(st, inb):
             return seq_nth(E, st, s0, z3.simplify(a + jz))
     return zs[j]
 
